@@ -4,7 +4,9 @@ package c04
 
 import (
 	"bytes"
+	"errors"
 	"fmt"
+	"io"
 	"math/rand"
 
 	"verif/core"
@@ -38,8 +40,8 @@ func init() {
 var allPlans = append(append([]string{}, fc.PlanKinds...), "zero")
 
 func run(c *core.Ctx) {
-	nDec := c.Scale(4800, 120000)
-	nRT := c.Scale(1200, 30000)
+	nDec := c.Scale(14400, 360000)
+	nRT := c.Scale(3600, 90000)
 	shapes := fc.LFShapes()
 	if c.Shard == 0 {
 		c.Count("configs_length_field_shapes", int64(len(shapes)))
@@ -346,7 +348,8 @@ func judgeDecode(c *core.Ctx, id, what string, s stream, plan fc.Plan, res *fc.R
 		switch {
 		case dec == fc.Varint && len(plan.Zeros) > 0 && fc.ZeroInHeader(plan, s.layout, idx):
 			key = "C04:varint-header-misread-on-zero-read"
-		case plan.Term == fc.TermDataEOF && idx == len(s.layout)-1 && (kind == "frame-missing" || kind == "frame-read-error"):
+		case plan.Term == fc.TermDataEOF && idx == len(s.layout)-1 && (kind == "frame-missing" || kind == "frame-read-error") && int(res.FinalOff) == len(s.wire) && raisedEOF(res):
+			// every byte was handed out, the last ones together with io.EOF, and the decoder gave up with EOF
 			key = "C04:last-frame-lost-when-final-bytes-arrive-with-eof:" + dec
 		}
 		c.Violation(key, id, fmt.Sprintf("%s, %d frame(s), fragmentation %s: frame #%d %s", s.cfg, len(s.layout), plan, idx, msg), detail(idx, extra))
@@ -390,6 +393,15 @@ func judgeDecode(c *core.Ctx, id, what string, s stream, plan fc.Plan, res *fc.R
 	if e := res.RuntimeFault(); e != nil {
 		c.Violation("C04:"+what+"-runtime-error:"+dec, id, fmt.Sprintf("%s raised a runtime fault: %v", s.cfg, e), detail(idx, nil))
 	}
+}
+
+func raisedEOF(res *fc.Result) bool {
+	for _, e := range res.Exceptions {
+		if errors.Is(e, io.EOF) || errors.Is(e, io.ErrUnexpectedEOF) {
+			return true
+		}
+	}
+	return false
 }
 
 func headSpans(l []fc.Span) []fc.Span {
